@@ -181,6 +181,28 @@ def specificity(scratch: str, only: str | None = None) -> int:
     return bad
 
 
+def stability(scratch: str) -> int:
+    """The unchanged tree under other VERIF_SEED values: every quick check must exit 0 (a generator change that is
+    clean for seed 0 can still produce a false alarm for seed 1 -- it has happened, DESIGN.md section 9, A8)."""
+    bad = 0
+    for seed in (1, 2, 3):
+        for prop in ("C14", "C02", "C04", "C11"):
+            env = dict(os.environ)
+            env["VERIF_SEED"] = str(seed)
+            env["Y0SIM_EVIDENCE_DIR"] = os.path.join(scratch, "stab-evidence")
+            env["Y0SIM_REPLAY_DIR"] = os.path.join(scratch, "stab-replays")
+            t0 = time.time()
+            r = subprocess.run([driver.PY, os.path.join(driver.HERE, "main.py"), prop, "--tier", "quick"],
+                               env=env, capture_output=True, text=True, timeout=3600)
+            if r.returncode == 0 and "VIOLATION" not in r.stdout:
+                print(f"selftest stability VERIF_SEED={seed} {prop}: silent in {time.time() - t0:.0f}s", flush=True)
+            else:
+                print(f"SELFTEST-FAIL stability VERIF_SEED={seed} {prop}: exit={r.returncode} on the unchanged tree")
+                print(r.stdout[-1500:], r.stderr[-600:])
+                bad += 1
+    return bad
+
+
 def run(quick: bool, scratch: str) -> int:
     t0 = time.time()
     only = os.environ.get("Y0SIM_ONLY_MUTANT")
@@ -194,6 +216,7 @@ def run(quick: bool, scratch: str) -> int:
     bad = models(quick)
     bad += determinism(quick, scratch)
     if not quick:
+        bad += stability(scratch)
         bad += sensitivity(scratch)
         bad += specificity(scratch)
     print(f"selftest {'quick' if quick else 'thorough'}: {'OK' if not bad else str(bad) + ' FAILURES'} in {time.time() - t0:.0f}s")
